@@ -264,6 +264,23 @@ def check_value(rep, rule, key, spec, name, writes, tm, b, LEN):
                 ok_expr = (inner[0] == "call" and inner[1].endswith("::min") and T.const_val(inner[2][1]) == LEN and
                            T.mentions_call(inner[2][0], "usize::saturating_sub") and T.mentions_call(inner[2][0], "llfree::lower::Lower::frames"))
                 got = "free:min(frames-index,LEN)" if ok_expr else "free:other(%s)" % T.show(inner)[:80]
+                if ok_expr:
+                    # the subtracted index is the first frame of entry i of the boundary table: tables.len() * TREE_FRAMES + i * LEN
+                    TF = tm.program.crate("llfree").const("llfree::TREE_FRAMES")
+                    subs = [x for x in T.walk(inner[2][0]) if isinstance(x, tuple) and x and x[0] == "call" and x[1] == "usize::saturating_sub"]
+                    idx_ok = None
+                    if subs:
+                        li = T.linear(subs[0][2][1])
+                        if li is not None:
+                            lens = [a for a, v in li[0].items() if v == TF and a[0] == "call" and a[1] == "slice::len"]
+                            others = [a for a, v in li[0].items() if v == LEN and not (a[0] == "call" and a[1] == "slice::len")]
+                            idx_ok = li[1] == 0 and len(li[0]) == 2 and len(lens) == 1 and len(others) == 1
+                    if idx_ok is None:
+                        rep.note("boundary table index of %s: form not recognised, not decided" % key)
+                    else:
+                        rep.check(idx_ok, rule, key + "|index", "index = full tables * TREE_FRAMES + i * LEN",
+                                  "part %s: the frame index subtracted from frames() is %s, expected tables.len() * TREE_FRAMES + i * LEN" % (
+                                      name, str(T.linear(subs[0][2][1]))[:160]), t["span"])
         elif T.const_val(val) is not None:
             got = "bits:%d" % T.const_val(val)
         rep.check(got == want, rule, key + "|value", "writes %s" % got, "part %s is initialised with %s, expected %s" % (name, got, want), t["span"])
